@@ -1263,28 +1263,68 @@ impl<'a> Collector<'a> {
       }
       return;
     }
-    // all arms are plain variant patterns with pairwise distinct tags
-    let mut tags = HashSet::new();
-    for c in &m.cases {
-      match &c.pattern {
-        pattern::MatchingPattern::Variant(v) => {
-          if !tags.insert(v.tag.name) {
-            return;
-          }
-        }
-        _ => return,
+    // a discriminating column: the root, a field of a struct pattern or a position of a tuple pattern at which
+    // EVERY arm has a plain variant pattern, with pairwise distinct tags. Deleting the arm with tag V then leaves
+    // every value whose column holds V (the other columns arbitrary) without a matching arm.
+    #[derive(PartialEq, Eq, Hash, Clone)]
+    enum Col {
+      Root,
+      Field(PStr),
+      Pos(usize),
+    }
+    fn columns<'p>(p: &'p pattern::MatchingPattern<T>, root_t: &T) -> Vec<(Col, &'p pattern::VariantPattern<T>, T)> {
+      match p {
+        pattern::MatchingPattern::Variant(v) => vec![(Col::Root, v, root_t.clone())],
+        pattern::MatchingPattern::Object { elements, .. } => elements
+          .iter()
+          .filter_map(|e| match e.pattern.as_ref() {
+            pattern::MatchingPattern::Variant(v) => Some((Col::Field(e.field_name.name), v, e.type_.clone())),
+            _ => None,
+          })
+          .collect(),
+        pattern::MatchingPattern::Tuple(tp) => tp
+          .elements
+          .iter()
+          .enumerate()
+          .filter_map(|(i, e)| match e.pattern.as_ref() {
+            pattern::MatchingPattern::Variant(v) => Some((Col::Pos(i), v, e.type_.clone())),
+            _ => None,
+          })
+          .collect(),
+        _ => vec![],
       }
     }
-    // the scrutinee is a value of an enum class that declares all these tags
-    let Type::Nominal(nt) = m.matched.type_().as_ref() else { return };
+    let root_t = m.matched.type_().clone();
+    let per_arm: Vec<Vec<(Col, &pattern::VariantPattern<T>, T)>> = m.cases.iter().map(|c| columns(&c.pattern, &root_t)).collect();
+    let Some(first) = per_arm.first() else { return };
+    let mut chosen: Option<(Col, Vec<&pattern::VariantPattern<T>>, T)> = None;
+    for (col, _, ct) in first {
+      let vs: Vec<&pattern::VariantPattern<T>> =
+        per_arm.iter().filter_map(|cs| cs.iter().find(|(c, _, _)| c == col).map(|(_, v, _)| *v)).collect();
+      if vs.len() != n {
+        continue;
+      }
+      let mut tags = HashSet::new();
+      if vs.iter().all(|v| tags.insert(v.tag.name)) {
+        chosen = Some((col.clone(), vs, ct.clone()));
+        break;
+      }
+    }
+    let Some((col, vs, col_t)) = chosen else { return };
+    // the column holds a value of an enum class that declares all these tags
+    let Type::Nominal(nt) = col_t.as_ref() else { return };
     let Some(Toplevel::Class(cls)) = self.classes.get(&(nt.module_reference, nt.id)) else { return };
     let Some(TypeDefinition::Enum { variants, .. }) = &cls.type_definition else { return };
-    if !tags.iter().all(|t| variants.iter().any(|v| v.name.name == *t)) {
+    if !vs.iter().all(|v| variants.iter().any(|d| d.name.name == v.tag.name)) {
+      return;
+    }
+    // the other columns must have values too
+    if col != Col::Root && !inhabited(&root_t, self.classes, self.heap, &mut vec![]) {
       return;
     }
     for i in 0..n {
       let c = &m.cases[i];
-      let pattern::MatchingPattern::Variant(v) = &c.pattern else { return };
+      let v = vs[i];
       // the deleted variant has a value (its payload types are inhabited)
       let ok = v.data_variables.iter().flat_map(|d| &d.elements).all(|e| {
         let mut visiting = vec![(nt.module_reference, nt.id)];
@@ -1310,7 +1350,12 @@ impl<'a> Collector<'a> {
         if from < to {
           self.push(
             "match-nonexhaustive",
-            if i + 1 < n { "arm" } else { "last-arm" },
+            match (&col, i + 1 < n) {
+              (Col::Root, true) => "arm",
+              (Col::Root, false) => "last-arm",
+              (_, true) => "column-arm",
+              (_, false) => "column-last-arm",
+            },
             from,
             to,
             String::new(),
